@@ -67,6 +67,7 @@ func peekReaderWF(r *peekReader) bool {
 //@ func getInt
 //@ arith fp
 //@ ensures result1 == nil ==> -9223372036854775808 <= result0 && result0 <= 9223372036854774784
+//@ ensures [C06.getint] result1 == nil ==> float64(result0) == x
 
 //@ func invalidSince
 //@ safety C01
@@ -608,3 +609,16 @@ func specEEHex(c byte) bool {
 //@ before "n = uint32(buf.Len())" 2 lemma [C08.pfb.seg2.kept] pfbCase(w, opt) && opos() - old(opos()) < 4294967296 ==> opos() == segend(segend(old(opos())))
 //@ before "_, err = w.Write(..." 7 lemma [C08.pfb.seg3] pfbCase(w, opt) && opos() - old(opos()) < 4294967296 ==> seghdr(segend(segend(old(opos()))), 1) && opos() == segend(segend(segend(old(opos()))))
 //@ ensures [C08.pfb.framing] pfbCase(w, opt) && result == nil && opos() - old(opos()) < 4294967296 ==> seghdr(old(opos()), 1) && seghdr(segend(old(opos())), 2) && seghdr(segend(segend(old(opos()))), 1) && seghdr(segend(segend(segend(old(opos())))), 3) && opos() == mathint(segend(segend(segend(old(opos())))) + 2)
+
+// C06, subroutine calls and seac.  callsubr pops the subroutine number; number
+// 3 is the predefined empty subroutine (nothing happens); any other number
+// continues with exactly that entry of Subrs and resumes the caller behind the
+// call afterwards; path, position and the other operands stay as they are.
+// seac records the accented character exactly as its operands say and ends the
+// charstring; nothing else ever adds to the list of accented characters.
+//@ func (*decodeInfo).decodeCharString
+//@ loop 2 back-when [C06.callsubr.operands] opIs(prev(code), 10) && prev(len(stack)) >= 1 ==> len(stack) == prev(len(stack)) - 1 && (forall k :: 0 <= k && k < len(stack) ==> stack[k] == prev(stack[k])) && len(res.Cmds) == prev(len(res.Cmds)) && posX == prev(posX) && posY == prev(posY) && len(info.seacs) == prev(len(info.seacs))
+//@ loop 2 back-when [C06.callsubr.noop] opIs(prev(code), 10) && prev(len(stack)) >= 1 && prev(stack[len(stack)-1]) == 3 ==> len(cmdStack) == prev(len(cmdStack)) && len(code) == prev(len(code)) - 1 && ref(code) == prev(ref(code)) && off(code) == prev(off(code)) + 1
+//@ loop 2 back-when [C06.callsubr.enter] opIs(prev(code), 10) && prev(len(stack)) >= 1 && prev(stack[len(stack)-1]) != 3 ==> (forall idx int :: float64(idx) == prev(stack[len(stack)-1]) ==> 0 <= idx && idx < len(info.subrs) && sameslice(code, info.subrs[idx])) && len(cmdStack) == prev(len(cmdStack)) + 1 && ref(cmdStack[len(cmdStack)-1]) == prev(ref(code)) && off(cmdStack[len(cmdStack)-1]) == prev(off(code)) + 1 && len(cmdStack[len(cmdStack)-1]) == prev(len(code)) - 1 && (forall k :: 0 <= k && k < prev(len(cmdStack)) ==> sameslice(cmdStack[k], prev(cmdStack[k])))
+//@ loop 2 exit-when [C06.seac] len(info.seacs) == prev(len(info.seacs)) || (escIs(prev(code), 6) && prev(len(stack)) >= 5 && len(info.seacs) == prev(len(info.seacs)) + 1 && info.seacs[len(info.seacs)-1].name == name && info.seacs[len(info.seacs)-1].dx == prev(stack[1]) && info.seacs[len(info.seacs)-1].dy == prev(stack[2]) && float64(info.seacs[len(info.seacs)-1].base) == prev(stack[3]) && float64(info.seacs[len(info.seacs)-1].accent) == prev(stack[4]) && (forall k :: 0 <= k && k < prev(len(info.seacs)) ==> info.seacs[k] == prev(info.seacs[k])))
+//@ loop 2 back-when [C06.seac.only] len(info.seacs) == prev(len(info.seacs))
